@@ -94,7 +94,7 @@ def klass(reply):
     if reply == "[2]": return "panic"
     if reply == "[3]": return "hang"
     if reply == "[4]": return "crash"
-    return "value" if reply != "[9]" else "bad"
+    return "value" if reply != "[-9999]" else "bad"
 
 
 def proj_pkt(reply):
